@@ -75,6 +75,12 @@ def run(ck, tier):
         raise Inconclusive('specification Glob.tla violates its own invariant %s (ordinary alphabet)' % ro.violated)
     seen_s = {tuple(v['s']) for v in vecs}
     vecs += [v for v in vplib.read_dump_json(os.path.join(ro.dir, 'vectors.dump')) if tuple(v['s']) not in seen_s]
+    rl = vplib.run_tlc('Glob', 'Glob_lowbyte.cfg', dump='vectors', timeout=600, name='lowbyte')
+    ck.add_tlc('Glob exhaustive MaxLen=3 with non-ASCII letters whose low byte is a ref-forbidden ASCII character', rl)
+    if rl.violated:
+        raise Inconclusive('specification Glob.tla violates its own invariant %s (low-byte alphabet)' % rl.violated)
+    seen_s = {tuple(v['s']) for v in vecs}
+    vecs += [v for v in vplib.read_dump_json(os.path.join(rl.dir, 'vectors.dump')) if tuple(v['s']) not in seen_s]
     # ---- G: API level, every vector
     vplib.write_jsonl(os.path.join(sd, 'in.jsonl'), [{'id': i, 's': concrete(v['s'])} for i, v in enumerate(vecs)])
     vplib.run_harness(['glob-vectors', os.path.join(sd, 'in.jsonl'), os.path.join(sd, 'out.jsonl')])
@@ -208,6 +214,11 @@ def lint_part(ck, sd, vecs, real_by_pat, limit):
         indent = ' ' * (2 + (i % 3) * 2)
         pat = concrete(v['s'])
         head = 'on:\n  push:\n    %s:\n' % key
+        pre = 0
+        if i % 7 == 2:
+            # events that are not webhook events (no filters) before the one that carries the filter
+            head = 'on:\n  workflow_dispatch:\n  schedule:\n    - cron: \'0 0 * * *\'\n  push:\n    %s:\n' % key
+            pre = 3
         item = '%s  - ' % indent[:4]
         q = yaml_quote(pat, style)
         tail = '\njobs:\n  j:\n    runs-on: ubuntu-latest\n    steps:\n      - run: echo\n'
@@ -215,13 +226,13 @@ def lint_part(ck, sd, vecs, real_by_pat, limit):
             # the same pattern twice in one list and once more under a second event: every occurrence is validated
             if key.startswith('tags'):       # tag filters exist for push only
                 src = head + item + q + '\n' + item + q + tail
-                lines_ = [4, 5]
+                lines_ = [4 + pre, 5 + pre]
             else:
                 src = head + item + q + '\n' + item + q + '\n  pull_request:\n    %s:\n' % key + item + q + tail
-                lines_ = [4, 5, 8]
+                lines_ = [4 + pre, 5 + pre, 8 + pre]
         else:
             src = head + item + q + tail
-            lines_ = [4]
+            lines_ = [4 + pre]
         cases.append({'v': v, 'key': key, 'style': style, 'src': src, 'lines': lines_, 'scol': len(item) + 1})
     vplib.write_jsonl(os.path.join(sd, 'lint_in.jsonl'), [{'id': i, 'src': c['src']} for i, c in enumerate(cases)])
     vplib.run_harness(['lint-batch', os.path.join(sd, 'lint_in.jsonl'), os.path.join(sd, 'lint_out.jsonl')])
